@@ -4,6 +4,7 @@
 //! Correspondence harness: drives the real tantivy code (linked from /repo's working tree with
 //! `--cfg tantivy_verif`) and the compiled Lean model on the same generated inputs and reports
 //! disagreements and oracle violations. It never decides a verdict; `/verif/check` does.
+mod c07_more;
 mod c07_util;
 mod c16gen;
 mod dirs;
